@@ -243,8 +243,9 @@ class JaxImplicitComponent(ImplicitComponent):
         bool
             Whether jitting is needed.
         """
-        # if static values change, we need to rejit
-        inhash = hash((tuple(discrete_inputs) if discrete_inputs else (), self.get_self_statics()))
+        # if static values change, we need to rejit.  The values themselves are compared: hashes of
+        # different values can be equal (in CPython hash(-1) == hash(-2)).
+        inhash = (tuple(discrete_inputs) if discrete_inputs else (), self.get_self_statics())
         if inhash != self._static_hash:
             self._static_hash = inhash
             return True
